@@ -1,6 +1,6 @@
 """Property -> rules."""
 from .prog import Program
-from . import rules_cg, lalr, rules_dispatch, rules_wrap, rules_mem, rules_state, rules_dstr
+from . import rules_cg, lalr, rules_dispatch, rules_wrap, rules_mem, rules_state, rules_dstr, rules_recurse, rules_misc
 
 _progs = {}
 
@@ -55,7 +55,23 @@ def c19(chk, tier):
     rules_dstr.r_dstr(P(), chk)
 
 
+def c07(chk, tier):
+    chk.explanation = "Static: R-RECURSE (SCC classification, depth guards, stack budget from -fstack-usage), R-CONSTTIME."
+    rules_recurse.r_recurse(P(), chk, tier)
+    rules_recurse.r_consttime(P(), chk)
+    if tier == "thorough":
+        rules_recurse.r_recurse(P("nopool"), chk, tier)
+
+
+def c13(chk, tier):
+    chk.explanation = "Static: R-PUSHPOP (visited-stack guard brackets the recursive call) + R-ARRAY on transclude.c."
+    rules_misc.r_pushpop(P(), chk)
+    rules_mem.r_array(P(), chk, only_units={"transclude.c"})
+
+
 PROPS = {
+    "C07": ("other", c07),
+    "C13": ("other", c13),
     "C19": ("other", c19),
     "C01": ("other", c01),
     "C06": ("other", c06),
